@@ -82,7 +82,21 @@ func newNameResolver(kind int, failPaths map[string]bool) resolver.RestorerResol
 	return faults.NameResolver(kind, truthWithout(failPaths))
 }
 
-func newIdentResolver(kind int, failPaths map[string]bool) resolver.DecoratorResolver {
+func newIdentResolver(kind int, failPaths map[string]bool, panicPaths ...map[string]bool) resolver.DecoratorResolver {
+	if len(panicPaths) > 0 && len(panicPaths[0]) > 0 {
+		// a name resolver that crashes for one path (a defect in the caller's own code): the
+		// goroutine that asks for it dies; nobody else may be affected
+		var inner resolver.RestorerResolver = guess.New()
+		switch kind {
+		case identGoastMap:
+			inner = faults.NameResolver(faults.KindGuessMap, gen.Truth())
+		case identGoastSimple:
+			inner = faults.NameResolver(faults.KindSimple, gen.Truth())
+		case identGoastGobuild:
+			inner = faults.NameResolver(faults.KindGobuild, gen.Truth())
+		}
+		return goast.WithResolver(&pathFault{inner: inner, panics: panicPaths[0]})
+	}
 	wrap := func(r resolver.RestorerResolver) resolver.RestorerResolver {
 		if len(failPaths) == 0 {
 			return r
@@ -111,11 +125,18 @@ var errShared = faults.NewSentinel("shared-name-resolver")
 
 // pathFault is a stateless (read-only) failing name resolver.
 type pathFault struct {
-	inner resolver.RestorerResolver
-	paths map[string]bool
+	inner  resolver.RestorerResolver
+	paths  map[string]bool
+	panics map[string]bool
 }
 
+// injectedPanic is what a deliberately crashing resolver panics with.
+type injectedPanic struct{ path string }
+
 func (p *pathFault) ResolvePackage(path string) (string, error) {
+	if p.panics[path] {
+		panic(injectedPanic{path})
+	}
 	if p.paths[path] {
 		return "", errShared
 	}
@@ -169,6 +190,7 @@ type workload struct {
 	workers       [][]pipeSpec
 	identKind     int
 	nameKind      int
+	panicPaths    map[string]bool // paths for which the shared identifier resolver's name resolver panics
 	failPaths     map[string]bool // paths the shared identifier resolver's name resolver cannot name
 	nameFailPaths map[string]bool // paths the shared restore-side name resolver cannot name
 }
@@ -426,7 +448,7 @@ func drawPipe(run *core.Run, conflicts bool, noBroken ...bool) pipeSpec {
 			p.alias = map[string]string{}
 			n := 1 + t.Draw(3)
 			for i := 0; i < n; i++ {
-				pk := gen.Pool[t.Draw(len(gen.Pool)-1)]
+				pk := gen.Pool[t.Draw(gen.NumPlain)]
 				p.alias[pk.Path] = []string{"", "ali", "x", "_", "q1", "util"}[t.Draw(6)]
 			}
 		}
@@ -539,7 +561,7 @@ type concResult struct {
 func concurrentPhase(run *core.Run, w *workload, cfg sched.Config, fine bool, opOnly ...bool) concResult {
 	boundaryOnly := len(opOnly) > 0 && opOnly[0]
 	nworkers := len(w.workers)
-	shared := env{ident: newIdentResolver(w.identKind, w.failPaths), name: newNameResolver(w.nameKind, w.nameFailPaths), fset: token.NewFileSet()}
+	shared := env{ident: newIdentResolver(w.identKind, w.failPaths, w.panicPaths), name: newNameResolver(w.nameKind, w.nameFailPaths), fset: token.NewFileSet()}
 	s := theSched
 	s.Reset(cfg)
 	ws := make([]*wstate, nworkers)
@@ -619,7 +641,9 @@ func runScheduled(run *core.Run) {
 	// would run `go list`): no unknown paths and no failing paths in such runs
 	hintsOnly := w.identKind == identGoastGopackages || w.nameKind == faults.KindGopackagesHints
 	noExotic = hintsOnly
-	if w.identKind != identGoastNew && !hintsOnly && t.Bool(1, 6) {
+	if w.identKind != identGoastNew && !hintsOnly && t.Bool(1, 10) {
+		w.panicPaths = map[string]bool{gen.Pool[t.Draw(gen.NumPlain)].Path: true}
+	} else if w.identKind != identGoastNew && !hintsOnly && t.Bool(1, 6) {
 		w.failPaths = map[string]bool{gen.Pool[t.Draw(len(gen.Pool))].Path: true}
 	}
 	if (w.nameKind == faults.KindSimple || w.nameKind == faults.KindGobuild) && !hintsOnly && t.Bool(1, 5) {
@@ -660,7 +684,7 @@ func runScheduled(run *core.Run) {
 		}
 		w.workers = append(w.workers, ps)
 	}
-	run.Describe("scheduled: %d workers, shared ident resolver %s, shared name resolver %s, failing paths %v / %v, equal sources=%v", nworkers, identKindNames[w.identKind], faults.KindName(w.nameKind), keys(w.failPaths), keys(w.nameFailPaths), sameSrc)
+	run.Describe("scheduled: %d workers, shared ident resolver %s, shared name resolver %s, failing paths %v / %v, panicking paths %v, equal sources=%v", nworkers, identKindNames[w.identKind], faults.KindName(w.nameKind), keys(w.failPaths), keys(w.nameFailPaths), keys(w.panicPaths), sameSrc)
 	for i, ps := range w.workers {
 		for j, p := range ps {
 			run.Describe("worker %d pipe %d kind=%d reps=%d extras=%v split=%v sameAst=%v reuseFR=%v big=%q edits=%v alias=%v src=%d bytes hash %s", i, j, p.kind, p.reps, p.extras, p.split, p.sameAst, p.reuseFR, p.big, p.script, p.alias, len(p.src), dump.HashString(p.src))
@@ -799,28 +823,41 @@ func runScheduled(run *core.Run) {
 	// run AFTER the concurrent phase so that it cannot warm up (and thereby hide first-use races
 	// on) any lazily initialised state, package-level or inside the shared instances.
 	ref := make([][]opResult, nworkers)
+	refPanic := make([]*core.PanicInfo, nworkers)
 	for i, ps := range w.workers {
-		e := env{ident: newIdentResolver(w.identKind, w.failPaths), name: newNameResolver(w.nameKind, w.nameFailPaths)}
+		e := env{ident: newIdentResolver(w.identKind, w.failPaths, w.panicPaths), name: newNameResolver(w.nameKind, w.nameFailPaths)}
 		if pi := core.Catch(func() {
 			for j, p := range ps {
 				execPipe(j, p, e, nil, &ref[i])
 			}
 		}); pi != nil {
+			if strings.Contains(pi.Value, "injectedPanic") || strings.HasPrefix(pi.Value, "{") && len(w.panicPaths) > 0 {
+				refPanic[i] = pi // the injected crash of this worker's own resolver call: expected
+				run.Count("fault-fired/name-resolver-panic")
+				continue
+			}
 			// a panic without any concurrency is not a C16 matter; the workload is skipped
 			run.Count("reference-panicked")
 			run.Event("reference panic %s", pi.Sig())
 			return
 		}
 	}
-	// ---- O4 no panic in any worker
+	// ---- O4 no panic in any worker, except the one the injected crash kills when it runs alone too
 	for i, st := range ws {
-		if st.pi != nil {
+		if st.pi != nil && refPanic[i] == nil {
 			run.Fail("c16/panic", st.pi.Sig(), "worker %d panicked under the schedule: %s\n%s", i, st.pi.Value, st.pi.Stack)
+			return
+		}
+		if st.pi == nil && refPanic[i] != nil {
+			run.Fail("c16/isolation", "panic-lost", "worker %d crashes when it runs alone (its resolver panics) but completed under the schedule", i)
 			return
 		}
 	}
 	// ---- O2 isolation: every result equals the one obtained alone
 	for i, st := range ws {
+		if refPanic[i] != nil {
+			continue // died in both worlds; how far it got first is not compared
+		}
 		if len(st.res) != len(ref[i]) {
 			run.Fail("c16/isolation", "op-count", "worker %d performed %d operations, alone it performs %d", i, len(st.res), len(ref[i]))
 			return
